@@ -237,6 +237,26 @@ def float_monitors(chk, tier):
                 dev = float(np.max(np.abs(r2 - res["ops", "outside"])))
                 if dev > 1e-12 * sc:
                     chk.violation("float:rebuild_ops", "an operator-form Redfield tensor built a second time from the same system acts differently (%g)" % dev, "monitor", c)
+                # conversion as the very first access inside a basis context (the lazy basis change of the stored operators is still pending):
+                # the converted tensor must act as the tensor-form one does, in the eigenbasis of the Hamiltonian and in a random basis
+                for bname in ("ham", "random"):
+                    RTo3, _ = agg.get_RelaxationTensor(ta, relaxation_theory="stR", as_operators=True)
+                    op3 = qr.qm.Operator(data=X.copy())
+                    if bname == "ham":
+                        bop = ham
+                        ham.protect_basis()
+                    else:
+                        A3 = rs.randn(n, n)
+                        bop = qr.qm.hilbertspace.operators.SelfAdjointOperator(data=A3 + A3.T)
+                    with qr.eigenbasis_of(bop):
+                        RTo3.convert_2_tensor()
+                        inner3 = RTo3.apply(op3)
+                    if bname == "ham":
+                        ham.unprotect_basis()
+                    dev = float(np.max(np.abs(np.array(inner3.data) - res["tensor", "outside"])))
+                    if RTo3.as_operators or dev > 1e-9 * sc:
+                        chk.violation("float:convert_inside_context:" + bname, "an operator-form Redfield tensor converted by convert_2_tensor() as the first access "
+                                      "inside a basis context (%s) acts differently from the tensor form: %g (scale %g)" % (bname, dev, sc), "monitor", c)
                 # propagated dynamics, both forms
                 rho0 = np.zeros((n, n), dtype=complex)
                 rho0[n - 1, n - 1] = 1.0
@@ -281,6 +301,49 @@ def float_monitors(chk, tier):
                 dev = float(np.max(np.abs(outs["ops"] - outs["tensor"])))
                 if dev > 1e-9:
                     chk.violation("float:td_dynamics_forms", "time-dependent Redfield propagation (cut-off %s) differs between operator and tensor form by %g" % (cut, dev), "monitor", c)
+                # the same on propagation axes coarser than the bath axis (step = mult bath steps) with and without refinement: both forms must
+                # sample the stored tensor / operator families at the same bath indices; refined down to the bath step (Nref = mult) the
+                # run must reproduce the run on the bath axis itself at the common points
+                rho0c = rho0.copy()
+                rho0c[n - 1, n - 1], rho0c[n - 2, n - 2] = 0.7, 0.3
+                rho0c[n - 1, n - 2] = rho0c[n - 2, n - 1] = 0.2
+                fine = {}
+                for name, RT in (("ops", TDo), ("tensor", TD)):
+                    prop = qr.ReducedDensityMatrixPropagator(ta, ham, RTensor=RT)
+                    ham.protect_basis()
+                    with qr.eigenbasis_of(ham):
+                        fine[name] = np.array(prop.propagate(qr.ReducedDensityMatrix(data=rho0c.copy())).data)
+                    ham.unprotect_basis()
+                for mult, nref in ((2, 1), (2, 2), (3, 1), (4, 2)):
+                    tp = qr.TimeAxis(0.0, max(2, (ta.length - 1) // mult), mult * ta.step)
+                    outs = {}
+                    for name, RT in (("ops", TDo), ("tensor", TD)):
+                        prop = qr.ReducedDensityMatrixPropagator(tp, ham, RTensor=RT)
+                        if nref > 1:
+                            prop.setDtRefinement(nref)
+                        ham.protect_basis()
+                        with qr.eigenbasis_of(ham):
+                            outs[name] = np.array(prop.propagate(qr.ReducedDensityMatrix(data=rho0c.copy())).data)
+                        ham.unprotect_basis()
+                    cc = dict(c, kind="td_coarse", mult=mult, nref=nref, cut=cut)
+                    dev = float(np.max(np.abs(outs["ops"] - outs["tensor"])))
+                    if dev > 1e-9:
+                        chk.violation("float:td_dynamics_forms:coarse_axis", "time-dependent Redfield propagation on an axis of %d bath steps per step with Nref=%d "
+                                      "(cut-off %s) differs between operator and tensor form by %g (the two forms walk through the stored values differently)"
+                                      % (mult, nref, cut, dev), "monitor", cc)
+                    elif nref == mult and cut is not None:
+                        # with a cut-off time both nests take the clamp index on the PROPAGATION axis (self.TimeAxis.nearest(cutoff_time)) and clamp
+                        # a bath-step index with it: on a coarser axis the tensor is frozen at cutoff/mult.  The two forms agree with each other;
+                        # neither C02 nor C07 speaks about refinement-consistency under a cut-off: noticed, not judged (lead's decision)
+                        chk.count("not_judged:cutoff_clamp_axis")
+                    elif nref == mult:
+                        for name in ("ops", "tensor"):
+                            dev = float(np.max(np.abs(outs[name] - fine[name][::mult][:outs[name].shape[0]])))
+                            if dev > 1e-9:
+                                chk.violation("float:td_refined_to_bath_step:" + name, "time-dependent Redfield propagation (%s form) on an axis of %d bath steps per step "
+                                              "refined by Nref=%d differs from the propagation on the bath axis at the common points by %g" % (name, mult, nref, dev),
+                                              "monitor", cc)
+                    chk.count("float:td coarse axis mult=%d Nref=%d" % (mult, nref))
                 # oracle contract: an antiderivative vanishes at its lower limit
                 y = rs.randn(ta.length)
                 a0 = scipy.interpolate.UnivariateSpline(ta.data, y, s=0).antiderivative()(ta.data)[0]
